@@ -1,2 +1,631 @@
-// Package c20: (not built yet)
+// Package c20: flow inspection over-approximates what a run can do.
 package c20
+
+import (
+	"encoding/json"
+	"fmt"
+	"sort"
+	"strings"
+	"time"
+
+	"github.com/nyaruka/goflow/assets"
+	"github.com/nyaruka/goflow/flows"
+	"github.com/nyaruka/goflow/utils"
+	"verif/checks/sm"
+	"verif/mc"
+	"verif/world"
+)
+
+type J = world.J
+
+func act(name string, f func(u string) J) {
+	world.ActionSets[name] = func(fl, i int) []any { return []any{f(world.ActUUID(fl, i, 0))} }
+}
+
+func init() {
+	act("res", func(u string) J {
+		return J{"uuid": u, "type": "set_run_result", "name": "Color", "value": "red", "category": "Red"}
+	})
+	act("res2", func(u string) J {
+		return J{"uuid": u, "type": "set_run_result", "name": "color ", "value": "@input.text"}
+	})
+	act("res3", func(u string) J {
+		return J{"uuid": u, "type": "set_run_result", "name": "Color", "value": "blue", "category": "Blue"}
+	})
+	act("ticket", func(u string) J {
+		return J{"uuid": u, "type": "open_ticket", "topic": J{"uuid": world.TopicB, "name": "Support"}, "assignee": J{"email": "bob@nyaruka.com", "name": "Bob"}, "body": "help", "result_name": "Ticket"}
+	})
+	act("webhook", func(u string) J {
+		return J{"uuid": u, "type": "call_webhook", "method": "GET", "url": "http://example.com/x", "result_name": "WH"}
+	})
+	act("resthook", func(u string) J {
+		return J{"uuid": u, "type": "call_resthook", "resthook": "new-registration", "result_name": "RH"}
+	})
+	act("classifier", func(u string) J {
+		return J{"uuid": u, "type": "call_classifier", "classifier": J{"uuid": world.Classifier, "name": "Booking"}, "input": "@input.text", "result_name": "Intent"}
+	})
+	act("airtime", func(u string) J {
+		return J{"uuid": u, "type": "transfer_airtime", "amounts": J{"USD": 1}, "result_name": "Air"}
+	})
+	act("gadd", func(u string) J {
+		return J{"uuid": u, "type": "add_contact_groups", "groups": []any{J{"uuid": world.GroupA, "name": "Group A"}, J{"uuid": world.GroupB, "name": "Group B"}}}
+	})
+	act("gremove", func(u string) J {
+		return J{"uuid": u, "type": "remove_contact_groups", "groups": []any{J{"uuid": world.GroupA, "name": "Group A"}}}
+	})
+	act("field", func(u string) J {
+		return J{"uuid": u, "type": "set_contact_field", "field": J{"key": "age", "name": "Age"}, "value": "@(text_length(fields.gender & globals.org_name))"}
+	})
+	act("labels", func(u string) J {
+		return J{"uuid": u, "type": "add_input_labels", "labels": []any{J{"uuid": world.LabelA, "name": "Label A"}, J{"uuid": world.LabelB, "name": "Label B"}}}
+	})
+	act("channel", func(u string) J {
+		return J{"uuid": u, "type": "set_contact_channel", "channel": J{"uuid": world.ChanTwitter, "name": "Twitter"}}
+	})
+	act("template", func(u string) J {
+		return J{"uuid": u, "type": "send_msg", "text": "Hi there", "template": J{"uuid": world.TemplateA, "name": "affirmation"}, "template_variables": []any{"@contact.name"}}
+	})
+	act("msgtpl", func(u string) J {
+		return J{"uuid": u, "type": "send_msg", "text": "age=@fields.age secret=@globals.secret role=@parent.results.role"}
+	})
+	act("broadcast", func(u string) J {
+		return J{"uuid": u, "type": "send_broadcast", "text": "hello", "groups": []any{J{"uuid": world.GroupB, "name": "Group B"}, J{"uuid": world.GroupA, "name": "Group A"}}}
+	})
+}
+
+var actionKinds = []string{"A:res", "A:res2", "A:res3", "A:ticket", "A:webhook", "A:resthook", "A:classifier", "A:airtime", "A:gadd", "A:gremove",
+	"A:field", "A:labels", "A:channel", "A:template", "A:msgtpl", "A:broadcast"}
+
+// router kinds are rendered here (they carry result names and group references)
+//
+//	W, WT, R from the structural alphabet (W/WT save result "Answer"), plus
+//	G   split by group membership (has_group with a fixed group reference)
+//	RR  random router with a result name
+var routerKinds = []string{"W", "WT", "G", "RR", "Eo"}
+
+func init() {
+	world.KindExits["G"] = 2
+	world.KindExits["RR"] = 2
+}
+
+// render renders flow 0 from a spec, adding the router kinds this check defines.
+func render(spec world.FlowSpec) J {
+	// render unknown kinds as "N" first, then patch
+	tmp := world.FlowSpec{Nodes: make([]world.Node, len(spec.Nodes))}
+	for i, n := range spec.Nodes {
+		tmp.Nodes[i] = n
+		if n.Kind == "G" || n.Kind == "RR" {
+			tmp.Nodes[i] = world.Node{Kind: "S", Dests: n.Dests}
+		}
+	}
+	fl := world.Render(0, tmp, 1)
+	nodes := fl["nodes"].([]any)
+	for i, n := range spec.Nodes {
+		node := nodes[i].(J)
+		cat := func(c int) string { return world.UUID(fmt.Sprintf("f0.n%d.c%d", i, c)) }
+		switch n.Kind {
+		case "G":
+			// no result name: a saved result would carry the operand, i.e. the rendering of ALL the
+			// contact's groups - a wildcard read that the dependency clause excepts
+			node["router"] = J{"type": "switch", "operand": "@contact.groups",
+				"cases": []any{J{"uuid": world.UUID(fmt.Sprintf("c20.case%d", i)), "type": "has_group", "arguments": []any{world.GroupA, "Group A"}, "category_uuid": cat(0)}},
+				"categories": []any{
+					J{"uuid": cat(0), "name": "In", "exit_uuid": world.ExitUUID(0, i, 0)},
+					J{"uuid": cat(1), "name": "Out", "exit_uuid": world.ExitUUID(0, i, 1)}},
+				"default_category_uuid": cat(1)}
+		case "RR":
+			node["router"] = J{"type": "random", "result_name": "Bucket",
+				"categories": []any{
+					J{"uuid": cat(0), "name": "One", "exit_uuid": world.ExitUUID(0, i, 0)},
+					J{"uuid": cat(1), "name": "Two", "exit_uuid": world.ExitUUID(0, i, 1)}}}
+		}
+	}
+	return fl
+}
+
+// childFlow is the fixed flow entered by Eo.
+func childFlow() J {
+	spec := world.FlowSpec{Nodes: []world.Node{{Kind: "A:res2", Dests: []int{1}}, {Kind: "W", Dests: []int{-1, -1}}}}
+	return world.Render(1, spec, 0)
+}
+
+type rootSpec struct {
+	Flow    world.FlowSpec `json:"flow"`
+	Trigger string         `json:"trigger"`
+}
+
+// vary names one input the influence test changes
+type vary struct {
+	Kind string `json:"kind"` // field | global | group
+	Key  string `json:"key"`
+}
+
+var varies = []vary{{"field", "gender"}, {"field", "age"}, {"global", "org_name"}, {"global", "secret"}, {"group", world.GroupA}, {"group", world.GroupB}}
+
+func (rs *rootSpec) world(v *vary) *world.Root {
+	a := world.BaseAssets()
+	a["flows"] = []any{render(rs.Flow), childFlow()}
+	contact := world.DefaultContact()
+	contact["fields"] = J{"gender": J{"text": "F"}, "age": J{"text": "30", "number": 30}}
+	if v != nil {
+		switch v.Kind {
+		case "field":
+			f := contact["fields"].(J)
+			if v.Key == "gender" {
+				f["gender"] = J{"text": "Male"}
+			} else {
+				f["age"] = J{"text": "5", "number": 5}
+			}
+		case "global":
+			var gl []any
+			for _, g := range a["globals"].([]any) {
+				gj := g.(J)
+				if gj["key"] == v.Key {
+					gj = J{"key": gj["key"], "name": gj["name"], "value": "changed-value-xyz"}
+				}
+				gl = append(gl, gj)
+			}
+			a["globals"] = gl
+		case "group":
+			// toggle membership
+			in := false
+			var gs []any
+			for _, g := range contact["groups"].([]any) {
+				if g.(J)["uuid"] == v.Key {
+					in = true
+				} else {
+					gs = append(gs, g)
+				}
+			}
+			if !in {
+				gs = append(gs, J{"uuid": v.Key, "name": "G"})
+			}
+			if gs == nil {
+				gs = []any{}
+			}
+			contact["groups"] = gs
+		}
+	}
+	return &world.Root{Assets: a, Trigger: rs.Trigger, Contact: contact, Opt: world.Options{MaxSteps: 8}, DrawMenu: []float64{0, 0.5}}
+}
+
+func (rs *rootSpec) String() string { return rs.Flow.String() + " | trigger=" + rs.Trigger }
+
+type replay struct {
+	Spec rootSpec     `json:"spec"`
+	Hist []world.Step `json:"history"`
+}
+
+// ---------------------------------------------------------------------------------------------
+
+type inspection struct {
+	results map[string][]string // key -> categories
+	exits   map[string]bool
+	deps    map[string]bool // "type:identity"
+	raw     string
+}
+
+func inspectFlow(sa flows.SessionAssets, uuid assets.FlowUUID) (*inspection, error) {
+	fl, err := sa.Flows().Get(uuid)
+	if err != nil {
+		return nil, err
+	}
+	b, err := json.Marshal(fl.Inspect(sa))
+	if err != nil {
+		return nil, err
+	}
+	var doc struct {
+		Dependencies []map[string]any `json:"dependencies"`
+		Results      []struct {
+			Key        string   `json:"key"`
+			Categories []string `json:"categories"`
+		} `json:"results"`
+		WaitingExits []string `json:"waiting_exits"`
+	}
+	if err := json.Unmarshal(b, &doc); err != nil {
+		return nil, err
+	}
+	in := &inspection{results: map[string][]string{}, exits: map[string]bool{}, deps: map[string]bool{}, raw: string(b)}
+	for _, r := range doc.Results {
+		in.results[r.Key] = r.Categories
+	}
+	for _, e := range doc.WaitingExits {
+		in.exits[e] = true
+	}
+	for _, d := range doc.Dependencies {
+		t, _ := d["type"].(string)
+		for _, idk := range []string{"uuid", "key", "email", "slug"} {
+			if id, ok := d[idk].(string); ok && id != "" {
+				in.deps[t+":"+id] = true
+			}
+		}
+	}
+	return in, nil
+}
+
+// touched extracts (type, identity) pairs of assets an event names.
+func touched(ev map[string]any) [][2]string {
+	var out [][2]string
+	refs := func(t string, v any, idk string) {
+		switch x := v.(type) {
+		case []any:
+			for _, e := range x {
+				if m, ok := e.(map[string]any); ok {
+					if id, ok := m[idk].(string); ok {
+						out = append(out, [2]string{t, id})
+					}
+				}
+			}
+		case map[string]any:
+			if id, ok := x[idk].(string); ok {
+				out = append(out, [2]string{t, id})
+			}
+		}
+	}
+	switch ev["type"] {
+	case "contact_groups_changed":
+		refs("group", ev["groups_added"], "uuid")
+		refs("group", ev["groups_removed"], "uuid")
+	case "contact_field_changed":
+		refs("field", ev["field"], "key")
+	case "input_labels_added":
+		refs("label", ev["labels"], "uuid")
+	case "flow_entered":
+		refs("flow", ev["flow"], "uuid")
+	case "ticket_opened":
+		if t, ok := ev["ticket"].(map[string]any); ok {
+			refs("topic", t["topic"], "uuid")
+			refs("user", t["assignee"], "email")
+		}
+	case "msg_created":
+		if m, ok := ev["msg"].(map[string]any); ok {
+			if tp, ok := m["templating"].(map[string]any); ok {
+				refs("template", tp["template"], "uuid")
+			}
+		}
+	case "service_called":
+		refs("classifier", ev["classifier"], "uuid")
+	case "classifier_called":
+		refs("classifier", ev["classifier"], "uuid")
+	case "broadcast_created":
+		refs("group", ev["groups"], "uuid")
+	case "contact_urns_changed":
+		if us, ok := ev["urns"].([]any); ok {
+			for _, u := range us {
+				if s, ok := u.(string); ok {
+					if i := strings.Index(s, "channel="); i >= 0 {
+						id := s[i+8:]
+						if j := strings.IndexAny(id, "&#"); j >= 0 {
+							id = id[:j]
+						}
+						out = append(out, [2]string{"channel", id})
+					}
+				}
+			}
+		}
+	}
+	return out
+}
+
+// namedIn reports whether the identity occurs as a string value anywhere in the JSON value (a
+// generic walk that shares no code with the engine's reflection-based extraction).
+func namedIn(v any, id string) bool {
+	switch x := v.(type) {
+	case string:
+		return x == id
+	case []any:
+		for _, e := range x {
+			if namedIn(e, id) {
+				return true
+			}
+		}
+	case map[string]any:
+		for _, e := range x {
+			if namedIn(e, id) {
+				return true
+			}
+		}
+	}
+	return false
+}
+
+func flowNodeJSON(root *world.Root, flowUUID, nodeUUID string) any {
+	for _, f := range root.Assets["flows"].([]any) {
+		fj := f.(J)
+		if fj["uuid"] != flowUUID {
+			continue
+		}
+		for _, n := range fj["nodes"].([]any) {
+			if n.(J)["uuid"] == nodeUUID {
+				var v any
+				b, _ := json.Marshal(n)
+				json.Unmarshal(b, &v)
+				return v
+			}
+		}
+	}
+	return nil
+}
+
+// runEventsByFlow renders, per flow, the canonical event stream of its runs (for the influence test).
+func runEventsByFlow(x *world.Exec) map[string]string {
+	out := map[string]string{}
+	for _, r := range x.Session.Runs() {
+		b, _ := json.Marshal(r.Events())
+		out[string(r.FlowReference().UUID)] += world.Canon(b) + "\n"
+	}
+	return out
+}
+
+func judge(c *mc.Ctx, rs *rootSpec, hist []world.Step, influence bool, count bool) []sm.Problem {
+	var ps []sm.Problem
+	add := func(key, what string, args ...any) {
+		ps = append(ps, sm.Problem{Key: key, What: fmt.Sprintf(what, args...)})
+	}
+	root := rs.world(nil)
+	t := sm.Replay(root, hist)
+	if t.HarnessErr != nil {
+		add("harness:"+mc.Hash(t.HarnessErr.Error()), "harness: %v", t.HarnessErr)
+		return ps
+	}
+	if t.Panic != "" || t.X.Err != nil {
+		return ps // C05/C10's subject
+	}
+	x := t.X
+	insp := map[string]*inspection{}
+	getInsp := func(uuid assets.FlowUUID) *inspection {
+		if in, ok := insp[string(uuid)]; ok {
+			return in
+		}
+		in, err := inspectFlow(x.SA, uuid)
+		if err != nil {
+			in = nil
+		}
+		insp[string(uuid)] = in
+		return in
+	}
+	for _, r := range x.Session.Runs() {
+		if r.Flow() == nil {
+			continue
+		}
+		in := getInsp(r.Flow().UUID())
+		if in == nil {
+			continue
+		}
+		stepNode := map[string]string{}
+		for _, s := range r.Path() {
+			stepNode[string(s.UUID())] = string(s.NodeUUID())
+		}
+		evs := r.Events()
+		prev := t.PrevEvents[r.UUID()]
+		if prev > len(evs) {
+			prev = len(evs)
+		}
+		for _, e := range evs[prev:] {
+			b, _ := json.Marshal(e)
+			var ev map[string]any
+			json.Unmarshal(b, &ev)
+			// (results)
+			if e.Type() == "run_result_changed" {
+				name, _ := ev["name"].(string)
+				cat, _ := ev["category"].(string)
+				key := utils.Snakify(name)
+				if count {
+					c.Inc("results_compared")
+					c.Fact("result:" + key)
+				}
+				cats, declared := in.results[key]
+				if !declared {
+					add("results:saved-result-not-in-inspection:"+nodeActionType(root, string(r.Flow().UUID()), stepNode[string(e.StepUUID())]),
+						"a run saved result %q (key %s) but the flow's inspection does not list it (inspection results: %v)", name, key, keysOf(in.results))
+				} else if len(cats) > 0 && cat != "" {
+					found := false
+					for _, cc := range cats {
+						if cc == cat {
+							found = true
+						}
+					}
+					if !found {
+						add("results:category-not-in-inspection:"+nodeActionType(root, string(r.Flow().UUID()), stepNode[string(e.StepUUID())]),
+							"a run saved result %q with category %q but the inspection lists categories %v", name, cat, cats)
+					}
+				}
+			}
+			// (dependencies by reference)
+			node := flowNodeJSON(root, string(r.Flow().UUID()), stepNode[string(e.StepUUID())])
+			for _, tp := range touched(ev) {
+				if node == nil || !namedIn(node, tp[1]) {
+					continue // reached by name, wildcard or expression: outside the clause
+				}
+				if count {
+					c.Inc("dependencies_compared")
+					c.Fact("dep:" + tp[0])
+				}
+				if !in.deps[tp[0]+":"+tp[1]] {
+					add("dependencies:touched-"+tp[0]+"-not-in-inspection:"+e.Type(), "a %s event names %s %s, the node references it by a fixed reference, but the inspection's dependencies do not list it", e.Type(), tp[0], tp[1])
+				}
+			}
+		}
+	}
+	// (waiting exits) the step that was waiting before this resume
+	if len(hist) > 1 {
+		for _, r := range x.Session.Runs() {
+			if t.PrevStatus[r.UUID()] != flows.RunStatusWaiting || r.Flow() == nil {
+				continue
+			}
+			n := t.PrevSteps[r.UUID()]
+			if n == 0 || n > len(r.Path()) {
+				continue
+			}
+			st := r.Path()[n-1]
+			if st.ExitUUID() == "" {
+				continue
+			}
+			in := getInsp(r.Flow().UUID())
+			if in == nil {
+				continue
+			}
+			if count {
+				c.Inc("waiting_exits_compared")
+				c.Fact("waiting_exit")
+			}
+			if !in.exits[string(st.ExitUUID())] {
+				add("waiting-exits:exit-taken-from-wait-not-in-inspection:"+strings.SplitN(hist[len(hist)-1].Ev, ":", 2)[0], "a %s resume left a wait by exit %s which the inspection does not list as a waiting exit", hist[len(hist)-1].Ev, st.ExitUUID())
+			}
+		}
+	}
+	// (dependencies by influence) change one field / global / group membership: if the events of a
+	// flow's runs change, the flow reads it and must list it
+	if influence {
+		base := runEventsByFlow(x)
+		for vi := range varies {
+			v := &varies[vi]
+			t2 := sm.Replay(rs.world(v), hist)
+			if t2.HarnessErr != nil || t2.Panic != "" || t2.X == nil || t2.X.Err != nil {
+				continue
+			}
+			other := runEventsByFlow(t2.X)
+			if count {
+				c.Inc("influence_reruns")
+			}
+			for fu, evs := range base {
+				if other[fu] == evs {
+					continue
+				}
+				in := getInsp(assets.FlowUUID(fu))
+				if in == nil {
+					continue
+				}
+				if count {
+					c.Fact("influence:" + v.Kind)
+				}
+				// a flow's events may also change because an *earlier* flow in the session behaved
+				// differently (parent entered another node); only judge flows whose own definition can
+				// read the varied input, i.e. the first flow, or a child whose parent's events are equal
+				if fu != world.FlowUUID(0) && base[world.FlowUUID(0)] != other[world.FlowUUID(0)] {
+					continue
+				}
+				if !in.deps[v.Kind+":"+v.Key] {
+					add("dependencies:influenced-by-"+v.Kind+"-not-in-inspection:"+v.Key[:min(len(v.Key), 8)], "changing %s %s changes the events of runs of flow %s, but the flow's inspection does not list it as a dependency", v.Kind, v.Key, fu)
+				}
+			}
+		}
+	}
+	return ps
+}
+
+func keysOf(m map[string][]string) []string {
+	var out []string
+	for k := range m {
+		out = append(out, k)
+	}
+	sort.Strings(out)
+	return out
+}
+
+// nodeActionType names the action/router types of a node (for signature keys).
+func nodeActionType(root *world.Root, flowUUID, nodeUUID string) string {
+	n, _ := flowNodeJSON(root, flowUUID, nodeUUID).(map[string]any)
+	if n == nil {
+		return "unknown-node"
+	}
+	var parts []string
+	if as, ok := n["actions"].([]any); ok {
+		for _, a := range as {
+			if t, ok := a.(map[string]any)["type"].(string); ok {
+				parts = append(parts, t)
+			}
+		}
+	}
+	if r, ok := n["router"].(map[string]any); ok {
+		parts = append(parts, "router:"+fmt.Sprint(r["type"]))
+	}
+	return strings.Join(parts, "+")
+}
+
+func specs(tier string) []rootSpec {
+	kinds := append(append([]string{}, actionKinds...), routerKinds...)
+	var out []rootSpec
+	for n := 1; n <= 2; n++ {
+		for _, f := range world.EnumFlows(kinds, n) {
+			for _, tr := range []string{"msg", "flow_action"} {
+				out = append(out, rootSpec{Flow: f, Trigger: tr})
+			}
+		}
+	}
+	return out
+}
+
+func run(c *mc.Ctx) {
+	ss := specs(c.Tier)
+	depth, bound := 1, 1
+	if c.Thorough() {
+		depth, bound = 2, 2
+	}
+	for i := range ss {
+		if !c.Mine(i) {
+			continue
+		}
+		if c.Expired() {
+			c.Cap("time budget reached; every root before the cap was explored completely")
+			break
+		}
+		rs := &ss[i]
+		cfg := sm.Cfg{Depth: depth, Events: []string{"msg:a", "msg:zz", "timeout"}, Regimes: []bool{true}, ChoiceBound: bound}
+		cfg.Visit = func(t *sm.Trans) bool {
+			if t.HarnessErr != nil || t.Panic != "" || t.X == nil || t.X.Err != nil {
+				return false
+			}
+			c.Inc("evaluations")
+			influence := c.Thorough() || len(t.Hist) <= 2
+			for _, p := range judge(c, rs, t.Hist, influence, true) {
+				c.Violation(p.Key, p.What+"\nroot: "+rs.String()+"\nhistory: "+mc.JSON(t.Hist), replay{Spec: *rs, Hist: t.Hist})
+			}
+			if c.WantSample() && len(t.Hist) == 2 && i%311 == 3 {
+				c.Sample(map[string]any{"root": rs.String(), "history": t.Hist})
+			}
+			return true
+		}
+		st := sm.Search(rs.world(nil), cfg)
+		c.Inc("roots")
+		c.Add("states", int64(st.States))
+		c.Add("transitions", int64(st.Transitions))
+		c.Inc("distinct_nontrivial")
+	}
+}
+
+func replayFn(c *mc.Ctx, raw json.RawMessage) (string, bool) {
+	var rp replay
+	if err := json.Unmarshal(raw, &rp); err != nil {
+		return err.Error(), false
+	}
+	ps := judge(c, &rp.Spec, rp.Hist, true, false)
+	out := "root: " + rp.Spec.String() + " history: " + mc.JSON(rp.Hist)
+	for _, p := range ps {
+		out += "\nPROBLEM " + p.Key + ": " + p.What
+	}
+	return out, len(ps) > 0
+}
+
+func init() {
+	mc.Register(&mc.Check{
+		ID:    "C20",
+		Level: "model_checking",
+		Rule: "static inspection compared with ALL executions: every canonical flow of <= 2 nodes over a 21-kind alphabet (16 result-saving / asset-referencing actions: set_run_result with keys differing in case/spacing, open_ticket, call_webhook, call_resthook, call_classifier, transfer_airtime, add/remove groups, set field from a template, labels, set channel, template message, templates reading fields/globals/parent results, broadcast; routers: msg wait, wait+timeout, split by group, random with result, enter_flow) x {msg, flow_action} triggers; BFS over resumes {msg a, msg zz, timeout} to depth 1/2 with every environment answer (HTTP answers, random draws) up to a deviation bound. " +
+			"Oracles per transition: every run_result_changed key (and category when the spec lists categories) is in Inspect().results; every exit by which a resume leaves a wait is a waiting exit; every asset an event names that the node references by a fixed reference (found by a generic JSON walk) is a dependency; and, by re-running with one field / global / group membership changed, every input that influences a flow's events is a dependency.",
+		Assumptions: []string{"assets reached through wildcards, names or expressions are outside the dependency clause", "the influence test varies 2 fields, 2 globals and 2 static groups"},
+		Run:         run,
+		Replay:      replayFn,
+		Budget:      map[string]time.Duration{"quick": 5 * time.Minute, "thorough": 25 * time.Minute},
+		Guards: func(r *mc.Result, tier string) []string {
+			var f []string
+			for _, fact := range []string{"result:color", "result:ticket", "result:wh", "result:answer", "result:intent", "result:air", "result:bucket", "waiting_exit",
+				"dep:group", "dep:field", "dep:label", "dep:flow", "dep:topic", "dep:user", "dep:template", "dep:classifier", "dep:channel", "influence:field", "influence:global", "influence:group"} {
+				if r.Facts[fact] == 0 {
+					f = append(f, "never observed: "+fact)
+				}
+			}
+			return f
+		},
+	})
+}
